@@ -428,6 +428,7 @@ type exState struct {
 	id       uint16
 	reqBytes []byte // what the client handed to the library (packed by the harness beforehand)
 	net      string
+	manual   bool // the client wrote the query and read one message itself (no exchange call of the library)
 
 	handlerN  int
 	scribbled bool
@@ -921,6 +922,28 @@ func (c *clientTask) RunEvent(time.Time) {
 			f.Id = uint16(60000 + c.ci*32 + i)
 			f.Response = true
 			b, _ := f.Pack()
+			// not every datagram with somebody else's ID is a tidy message: the late answer to an earlier,
+			// larger question does not fit today's buffer, a stale signed answer was signed for another
+			// request, and what comes from elsewhere may be anything behind its header
+			switch (sc.RunSeed + uint64(i)) % 6 {
+			case 1:
+				b = append(b[:12:12], 0xc0, 0x0c, 0xff, 0xff, 0x07) // a question section that does not decode
+				k.Bump("fault.dgram_spoof_undecodable")
+			case 2:
+				b[7] = 3 // claims three answers, has none
+				k.Bump("fault.dgram_spoof_undecodable")
+			case 3:
+				for len(f.Answer) < 40 {
+					f.Answer = append(f.Answer, &dns.TXT{Hdr: dns.RR_Header{Name: "forged.test.", Rrtype: dns.TypeTXT, Class: dns.ClassINET, Ttl: 1}, Txt: []string{strings.Repeat("s", 200)}})
+				}
+				b, _ = f.Pack() // some 8 KiB: the answer to a question that advertised a larger buffer than today's
+				k.Bump("fault.dgram_spoof_oversize")
+			case 4:
+				f.Extra = append(f.Extra, &dns.TSIG{Hdr: dns.RR_Header{Name: "stale.key.", Rrtype: dns.TypeTSIG, Class: dns.ClassANY}, Algorithm: dns.HmacSHA256, TimeSigned: uint64(time.Now().Unix()), Fudge: 300,
+					MACSize: 32, MAC: strings.Repeat("ab", 32), OrigId: f.Id})
+				b, _ = f.Pack() // signed - for another request, under a key of another day
+				k.Bump("fault.dgram_spoof_signed")
+			}
 			k.Lock()
 			x.n.InjectToClient(dconn, b, time.Duration(1+i*7%40)*time.Millisecond)
 			k.Unlock()
@@ -1135,6 +1158,7 @@ func (c *clientTask) RunEvent(time.Time) {
 			ctx.Cancel()
 			k.Yield("cli.cancelled", 0)
 		case 2:
+			ex.manual = true // one write, one read: skipping is this application's business, not the library's
 			co.UDPSize = uint16(e.CliUDP)
 			co.TsigSecret = cl.TsigSecret
 			co.SetDeadline(deadline)
@@ -1398,13 +1422,42 @@ func (x *run) judgeExchange(ex *exState, net string, sconn *simnet.StreamConn, d
 			fail("B1", "reply-cut-by-client-buffer", "a %d-octet datagram was cut by the receive buffer the library offered for exchange %s, which is entitled to %d octets (advertised EDNS size / configured UDPSize, at least 512)", cut, ex.token, ex.guar)
 			return "violation"
 		}
+		// X2: everything read before the last datagram has another ID and is skipped. Whose reply a datagram is
+		// stands in its header: one that carries another ID is skipped whatever follows the header - too long for
+		// the buffer, not decodable, signed for another request -, one with this exchange's ID ends the reading.
+		// (A datagram shorter than a header has no ID: not judged either way.)
+		x.bump("oracle.X2_udp_id_rule")
+		for i, b := range got {
+			last := i == len(got)-1
+			if len(b) < 12 {
+				if last {
+					break
+				}
+				continue
+			}
+			hid := uint16(b[0])<<8 | uint16(b[1])
+			if hid != ex.id {
+				x.bump("oracle.X2_udp_foreign_id_skipped")
+				if last && err != nil && !isTimeout(err) && !ex.manual {
+					fail("X2", "udp-foreign-id-ends-exchange", "exchange %s (id %d) ended with %q on a datagram that carries another ID (%d; %d octets, %d of %d read): replies with other IDs are to be skipped until the matching one or the deadline arrives", ex.token, ex.id, err.Error(), hid, len(b), i+1, len(got))
+					return "violation"
+				}
+				if last && err == nil {
+					fail("X2", "udp-foreign-id-returned", "exchange %s (id %d) returned a reply with id %d", ex.token, ex.id, hid)
+					return "violation"
+				}
+				continue
+			}
+			if !last {
+				fail("X2", "udp-read-past-result", "client %s kept reading after a datagram that should have ended the exchange (%d of %d)", ex.token, i+1, len(got))
+				return "violation"
+			}
+		}
 		if tooLarge > 0 {
 			// a datagram larger than what this exchange asked for: whatever the library makes of its head is not judged
 			x.bump("cover.datagram_larger_than_client_buffer")
 			return "excused"
 		}
-		// X2: everything read before the last datagram has another ID and is skipped
-		x.bump("oracle.X2_udp_id_rule")
 		for i, b := range got {
 			last := i == len(got)-1
 			dm := new(dns.Msg)
@@ -1413,9 +1466,6 @@ func (x *run) judgeExchange(ex *exState, net string, sconn *simnet.StreamConn, d
 				derr = dns.ErrShortRead
 			}
 			switch {
-			case !last && (derr != nil || dm.Id == ex.id):
-				fail("X2", "udp-read-past-result", "client %s kept reading after a datagram that should have ended the exchange (%d of %d)", ex.token, i+1, len(got))
-				return "violation"
 			case last && derr == nil && dm.Id != ex.id:
 				// the loop stopped on a foreign ID: only a deadline may do that
 				if err == nil {
